@@ -2,6 +2,7 @@
 package lease_set2
 
 import (
+	"crypto/ed25519"
 	"encoding/binary"
 	"sort"
 	"strings"
@@ -13,6 +14,7 @@ import (
 	"github.com/go-i2p/common/lease"
 	"github.com/go-i2p/common/offline_signature"
 	sig "github.com/go-i2p/common/signature"
+	goi2ped25519 "github.com/go-i2p/crypto/ed25519"
 	"github.com/go-i2p/logger"
 	"github.com/samber/oops"
 )
@@ -993,9 +995,13 @@ func determineSignatureType(dest destination.Destination, offlineSig *offline_si
 }
 
 // createLeaseSet2Signature signs the LeaseSet2 data with the provided key.
+//
+// Supported signing keys are Ed25519 private keys given as ed25519.PrivateKey,
+// [64]byte, *github.com/go-i2p/crypto/ed25519.Ed25519PrivateKey or a 64-byte
+// []byte (the same set NewEncryptedLeaseSet accepts). A nil signingKey yields
+// an all-zero placeholder signature of the correct size: such a LeaseSet2 is
+// unsigned and does not verify.
 func createLeaseSet2Signature(signingKey interface{}, data []byte, sigType uint16) (sig.Signature, error) {
-	// This is a placeholder - actual signing would use the crypto library
-	// For now, we create a zero signature of the correct size
 	sigSize := offline_signature.SignatureSize(sigType)
 	if sigSize == 0 {
 		return sig.Signature{}, oops.
@@ -1004,20 +1010,43 @@ func createLeaseSet2Signature(signingKey interface{}, data []byte, sigType uint1
 			Errorf("unknown signature type: %d", sigType)
 	}
 
-	// TODO: Implement actual signing using the signingKey
-	// This would call into crypto/signature package to create real signatures
-	// For now, return an empty signature of the correct size
-	signatureData := make([]byte, sigSize)
+	var signatureData []byte
+	switch key := signingKey.(type) {
+	case nil:
+		signatureData = make([]byte, sigSize)
+		log.WithFields(logger.Fields{
+			"signature_type": sigType,
+			"signature_size": sigSize,
+			"data_size":      len(data),
+		}).Warn("No signing key given: created placeholder signature")
+	case ed25519.PrivateKey:
+		if len(key) != ed25519.PrivateKeySize {
+			return sig.Signature{}, oops.Code("invalid_key_length").
+				Errorf("Ed25519 signing key must be %d bytes, got %d", ed25519.PrivateKeySize, len(key))
+		}
+		signatureData = ed25519.Sign(key, data)
+	case [64]byte:
+		signatureData = ed25519.Sign(key[:], data)
+	case *goi2ped25519.Ed25519PrivateKey:
+		if key == nil || len(key.Bytes()) != ed25519.PrivateKeySize {
+			return sig.Signature{}, oops.Code("invalid_key_length").
+				Errorf("Ed25519 signing key must be %d bytes", ed25519.PrivateKeySize)
+		}
+		signatureData = ed25519.Sign(key.Bytes(), data)
+	case []byte:
+		if len(key) != ed25519.PrivateKeySize {
+			return sig.Signature{}, oops.Code("invalid_key_length").
+				Errorf("byte slice signing key must be %d bytes for Ed25519, got %d", ed25519.PrivateKeySize, len(key))
+		}
+		signatureData = ed25519.Sign(key, data)
+	default:
+		return sig.Signature{}, oops.Code("unsupported_key_type").
+			Errorf("unsupported signing key type: %T", signingKey)
+	}
+
 	signature, err := sig.NewSignatureFromBytes(signatureData, int(sigType))
 	if err != nil {
 		return sig.Signature{}, oops.Errorf("failed to create signature: %w", err)
 	}
-
-	log.WithFields(logger.Fields{
-		"signature_type": sigType,
-		"signature_size": sigSize,
-		"data_size":      len(data),
-	}).Warn("Created placeholder signature - implement actual signing")
-
 	return signature, nil
 }
